@@ -156,3 +156,20 @@ func vParam(name string, def int) int {
 func vFixMapOrderType(t string) {}
 
 func vNow() int64 { return 0 }
+
+// T2 intrinsics (native: no-ops / real goroutines are used)
+func vT2(preemptions, firings int) {}
+func vJoinAll()                    {}
+func vYield()                      {}
+func vDaemon()                     {}
+func vGoName(name string)          {}
+func vGid() int                    { return 0 }
+func vAtomicBegin()                {}
+func vAtomicEnd()                  {}
+func vSleep(d time.Duration)       { time.Sleep(d) }
+func vRaceCount() int              { return 0 }
+func vBlockUntil(f func() bool) {
+	for !f() {
+		time.Sleep(time.Millisecond)
+	}
+}
